@@ -50,3 +50,10 @@ CLAIMED["C12"] = (
     _TRUST + " The restart is in-process (shutdown() + new IMAPUserServer on the same directory), 30 virtual idle minutes for the idle-exit path.",
     "DESIGN.md section 4 C12",
 )
+CLAIMED["C13"] = (
+    "exploration",
+    "property-based testing: Hypothesis-generated alternations of MH-agent deliveries and IMAP commands (model-based); oracle = session stream replay + observer read-back for announcements, and an independent raw parser of .mh_sequences for the MH side",
+    "Generated interleavings of external deliveries (next free number, with/without `unseen`, number reuse after expunging the highest message, inactive mailboxes, restart) with commands from selected/idling/unselected sessions; announcements, UIDs, \\Recent and flags of new messages are checked against the model, and after every flag-changing or removing command the raw .mh_sequences file must mention no removed message and encode exactly the IMAP flags.",
+    _TRUST + " The MH agent is the stdlib mailbox.MH; the harness owns the folder mtime ('the mtime has advanced' is made true after each delivery).",
+    "DESIGN.md section 4 C13",
+)
